@@ -36,6 +36,8 @@ def main():
         limit = base + per_mb * size_mb
         rec = {'file': os.path.basename(path), 'limit_s': round(limit, 1)}
         t0 = time.time()
+        rss0 = resource.getrusage(resource.RUSAGE_SELF).ru_maxrss
+        cpu0 = time.process_time()
         signal.setitimer(signal.ITIMER_PROF, limit)
         signal.setitimer(signal.ITIMER_REAL, 8 * limit)
         try:
@@ -56,6 +58,12 @@ def main():
             signal.setitimer(signal.ITIMER_PROF, 0)
             signal.setitimer(signal.ITIMER_REAL, 0)
         rec['wall_s'] = round(time.time() - t0, 2)
+        rec['cpu_s'] = round(time.process_time() - cpu0, 2)
+        # growth of the peak resident set while this file was parsed (ru_maxrss is monotone, KiB on Linux)
+        rec['rss_growth_mb'] = round((resource.getrusage(resource.RUSAGE_SELF).ru_maxrss - rss0) / 1024.0, 1)
+        rec['size_mb'] = round(size_mb, 3)
+        if rec['outcome'] in ('result', 'exception') and rec['rss_growth_mb'] > 1024 + 100 * size_mb:
+            rec['outcome'] = 'memory'
         sys.stdout.write(json.dumps(rec) + '\n')
         sys.stdout.flush()
 
